@@ -160,10 +160,6 @@ def F8():
     return anyio.run(main)
 
 
-if __name__ == "__main__":
-    names = sys.argv[1:] or ["F1", "F2", "F3", "F4", "F5", "F6", "F7", "F8"]
-    for n in names:
-        print(n, "DEFECT PRESENT" if globals()[n]() else "ok")
 
 
 # --------------------------------------------------------------------------- F9 (C08)
@@ -196,3 +192,76 @@ def demo_f9():
                 await ctx.start_service_task(service, "svc", teardown_action=Stopper(ev))
 
     anyio.run(main)
+
+
+# --------------------------------------------------------------------------- F10 (C02)
+# get_resources(T) selected containers by the types recorded INSIDE each container.  A resource
+# generated by a factory is stored (setdefault) only under those of the factory's types that are
+# still free, but its container lists all of them - so for a (type, name) pair held by another
+# resource get_resources() listed the generated value, while get_resource() and
+# get_resource_nowait() answer with the resource registered under the pair: the lookup paths
+# disagree on the visible set (C02, last sentence).  Noted by an independent seeding agent
+# (round 5, C03) as a side observation on the unchanged tree; reported by C02.R3 once the rule
+# asked for the selection to go by the table key; repaired in /repo a749abf.
+def demo_f10():
+    """True iff the defect is present."""
+    import anyio
+    from asphalt.core import Context
+
+    class A:
+        pass
+
+    class B(A):
+        pass
+
+    async def main():
+        async with Context() as ctx:
+            static = A()
+            ctx.add_resource(static, types=[A])  # (A, "default") -> static
+            ctx.add_resource_factory(lambda: B(), types=[A, B])  # factory for (A, default), (B, default)
+            ctx.get_resource_nowait(B)  # generated; stored under (B, "default") only
+            assert ctx.get_resource_nowait(A) is static
+            return ctx.get_resources(A)["default"] is not static
+
+    return anyio.run(main)
+
+
+F10 = demo_f10
+
+
+# --------------------------------------------------------------------------- F11 (C11)  known finding
+# Signal.__get__ keeps the bound signals of a declaration in a WeakKeyDictionary keyed by the
+# owner instance, i.e. by hash and ==.  Two distinct instances that compare equal share one
+# bound signal: an event dispatched on a.changed reaches the subscribers of b.changed.  Noted by
+# an independent seeding agent (round 5, C11) as a side observation on the unchanged tree;
+# reported by C11.R1 (identity clause).  Not repaired, see known_findings.json.
+def F11():
+    """True iff the defect is present."""
+    from dataclasses import dataclass
+
+    from asphalt.core import Event, Signal
+
+    @dataclass(frozen=True)
+    class Source:
+        name: str
+        changed = Signal(Event)
+
+    a, b = Source("x"), Source("x")
+    return a is not b and a.changed is b.changed
+
+
+def F9():
+    """True iff the defect is present (the teardown only ends through the timeout)."""
+    try:
+        demo_f9()
+    except TimeoutError:
+        return True
+    except BaseException as exc:  # the AttributeError may surface inside a group
+        return "qualname" in repr(exc) or any("qualname" in repr(e) for e in getattr(exc, "exceptions", ()))
+    return False
+
+
+if __name__ == "__main__":
+    names = sys.argv[1:] or ["F1", "F2", "F3", "F4", "F5", "F6", "F7", "F8", "F9", "F10", "F11"]
+    for n in names:
+        print(n, "DEFECT PRESENT" if globals()[n]() else "ok")
